@@ -169,6 +169,8 @@ def scenario(job):
                 acts += [1, 2] if st["fails"] < 3 else [1]
             if tr is not None and not tr.lose_requested:
                 sent_live = [r for r in reqs if live(r) and r.expect and r.payload in tr.frames()]
+                # requests cancelled after they were written: the broker still answers them (late reply)
+                sent_live += [r for r in reqs if r.cancelled and r.expect and r.payload in tr.frames() and r.cid in bc.requests]
                 if sent_live:
                     acts += [3, 4]
                 acts.append(5)
@@ -239,7 +241,12 @@ def scenario(job):
                 elif a in (3, 4):
                     r = sent_live[ctx.choose("answer_which", len(sent_live))] if len(sent_live) > 1 else sent_live[0]
                     data = frame(struct.pack(">i", r.cid) + b"ok%d" % r.cid)
-                    if a == 3:
+                    if a == 3 and r.cancelled:
+                        ctx.log("late-answer-to-cancelled", r.cid)
+                        n_before = [len(x.res) for x in reqs]
+                        tr.deliver(data)
+                        ctx.check([len(x.res) for x in reqs] == n_before, "late-answer-to-cancelled-request-completes-nothing", "a late reply to cancelled request %d fired something" % r.cid)
+                    elif a == 3:
                         ctx.log("answer", r.cid)
                         tr.deliver(data)
                         ctx.check(len(r.res) == 1 and r.res[0] == data[4:], "answer-completes-request", repr(r.res))
@@ -247,7 +254,7 @@ def scenario(job):
                         cut = (2, 6, len(data) - 1)[ctx.choose("cut", 3)]
                         ctx.log("partial-answer-then-drop", r.cid, cut)
                         tr.deliver(data[:cut])
-                        ctx.check(not r.res, "partial-frame-completes-nothing")
+                        ctx.check(r.cancelled or not r.res, "partial-frame-completes-nothing")
                         tr.drop()
                         check_connecting("drop inside a frame")
                 elif a == 5:
